@@ -1,6 +1,7 @@
 //! Verification harness: runs the real implementation (path dependency on /repo)
 //! and prints canonical observations. One sub-command per engine.
 mod ast;
+mod compile;
 mod sat;
 mod tables;
 
@@ -15,6 +16,8 @@ fn main() {
     match args[1].as_str() {
         "tables" => tables::run(&args[2..]),
         "sat" => sat::run(&args[2..]),
+        "compile" => compile::run(&args[2..]),
+        "compile-one" => compile::run_one(&args[2..]),
         other => {
             eprintln!("unknown engine {}", other);
             std::process::exit(2);
